@@ -553,3 +553,66 @@ def replay_h_mask_then_reads(mask):
         return False, "agrees"
     finally:
         shutil.rmtree(d, ignore_errors=True)
+
+
+
+# ----------------------------------------------------------------- iteration row group by row group ---
+class _IterHandle(Handle):
+    """row groups are real RowGroup objects (iter_row_groups finds each one's position with list.index, i.e. by the
+    metadata's own equality)"""
+
+    def __init__(self, rows):
+        Handle.__init__(self, rows)
+        from fastparquet import parquet_thrift
+        self.row_groups = [parquet_thrift.RowGroup(num_rows=n, total_byte_size=100 + i, columns=[])
+                           for i, n in enumerate(rows)]
+        self.picked = []
+
+    def __getitem__(self, item):
+        self.picked.append(item)
+        return _Sliced([self.row_groups[item]])
+
+    iter_row_groups = ParquetFile.iter_row_groups
+
+
+class _Df:
+    def __init__(self, n):
+        self.n = n
+
+    @property
+    def empty(self):
+        return self.n == 0
+
+
+def h_iter_row_groups(n0: int, n1: int, n2: int, k: int) -> bool:
+    """
+    pre: 0 <= k <= 3 and 0 <= n0 < 2147483648 and 0 <= n1 < 2147483648 and 0 <= n2 < 2147483648
+    post: __return__
+    """
+    # iterating yields one frame per non-empty row group, in order, each read from its own row group
+    rows = [n0, n1, n2][:k]
+    h = _IterHandle(rows)
+    saved = _Sliced.to_pandas
+    _Sliced.to_pandas = lambda self, **kw: _Df(sum(rg.num_rows for rg in self.rgs))
+    try:
+        out = [df.n for df in h.iter_row_groups()]
+    finally:
+        _Sliced.to_pandas = saved
+    return h.picked == list(range(k)) and out == [n for n in rows if n > 0]
+
+
+def replay_h_iter_row_groups(n0, n1, n2, k):
+    import shutil
+    import fastparquet
+    fn, df, d = _real_groups([n0, n1, n2][:k])
+    if fn is None:
+        return None, "no rows"
+    try:
+        pf = fastparquet.ParquetFile(fn)
+        got = [x for part in pf.iter_row_groups() for x in part["a"]]
+        if got != list(df["a"]):
+            return True, "iter_row_groups over %r yields rows %r..., full read %r..." % (
+                [rg.num_rows for rg in pf.row_groups], got[:6], list(df["a"])[:6])
+        return False, "agrees"
+    finally:
+        shutil.rmtree(d, ignore_errors=True)
